@@ -17,7 +17,8 @@ where
 
     let bin_count = read_bin_count(reader)?;
 
-    let mut bins = IndexMap::with_capacity(bin_count);
+    // The bin count is read from the stream and cannot be trusted for preallocation.
+    let mut bins = IndexMap::new();
     let mut metadata = None;
 
     for _ in 0..bin_count {
